@@ -277,6 +277,30 @@ PROPS['C19'] = {
                     'decided only by the bounded stand-in'],
 }
 
+PROPS['C06'] = {
+    'sidecars': ['contracts/C06_routing.py'],
+    'level': 'other',
+    'explanation': 'Three steps, all discharged on the real code: (1) dispatch - YowProtocolLayer.receive / send hand a stanza / entity to the '
+                   'handler registered for its tag, at most once, after the reply registry (C08); (2) every recv / send handler and every reply '
+                   'continuation of the acks, receipts, chat state, presence, ib, privacy, contacts, profiles, groups, media, messages, '
+                   'notifications, calls and iq layers (95 functions): under its guard exactly one entity goes up, namely what ONE parser made of '
+                   'THIS stanza, or exactly one stanza goes down, the serialisation of THIS entity; outside its guard nothing goes up or down and '
+                   'nothing raises; (3) composition lemmas over the SAME guard predicates: for EVERY stanza / entity and every module selection at '
+                   'most one layer of the parallel group answers (nothing duplicated), each supported kind is answered by exactly one, kinds of a '
+                   'left-out module by none.  The tag tables (handleMap of each layer) and the namespaces of the classes tested by class are finite '
+                   'facts checked completely by the native part.  Entity parsers / serialisers are opaque events (C09), the fan-out of the parallel '
+                   'layer is C18, the encryption layers C03: level other.',
+    'native_checks': [{'name': 'c06_routing', 'role': 'stand-in', 'cmd': ['bounded/routing_check.py'],
+                       'bound': 'class-facts and handle-maps: complete over the 13 classes / 15 layer classes; assembled group: the real parallel '
+                                'group for all 16 module selections x the stanza of every entity class with a fixture in the repository (57) x '
+                                '1 (quick) / 8 (thorough) value variations, both directions, + the 13 class-guarded requests with result / error / '
+                                'replayed replies; real counts compared with the composed guards of the sidecar evaluated natively'}],
+    'assumptions': ['every X.fromProtocolTreeNode and entity.toProtocolTreeNode is an opaque event (what they compute: C09)',
+                    'ids of requests registered in different layers are distinct (ProtocolEntity._generateId is a counter), so a reply is consumed '
+                    'by one registry', 'entity_class_facts (namespace of the classes the send guards test by class): assumed in the lemma, checked '
+                    'natively and completely', 'handleMap tables: checked natively and completely (constructors of the layers are not under contract)'],
+}
+
 NOT_APPLICABLE = {
     'C11': 'quantifies over thread interleavings (2-4 sender threads through lock/queue operations); no verifier available here '
            'has a thread or permission model and sequential contracts cannot express "for every schedule" (DESIGN.md section 8)',
